@@ -297,3 +297,15 @@ MUTANTS = [
         if(rb < 0)
             goto read_error;""", 'expect': None},
 ]
+
+
+CLAIM = {
+    'technique': 'must-pass-through gate analysis on verdict edges (path-sensitive class engine), call-order '
+                 'typestate, (buffer,count) pairing between read and hash/decoder consumers, tool exit gate',
+    'text': 'static analysis: decides clauses C02-a..e - every success exit of the header reader, of the chunk end '
+            'and of the read-mode close lies on the >=1 edge of the corresponding checksum verdict; header fields '
+            'are parsed only after the header gate; the bytes handed to the decoder are exactly the bytes hashed; '
+            'unzck exits 0 only through zck_close()==true. Equality with an independent decoder is not decided.',
+    'note': 'trusted: clang 14 front end; gate = branch edge refining the verdict call result into {1,>1}; '
+            'pairing compares access paths after substituting single-definition locals',
+}
